@@ -15,11 +15,14 @@ structure St where
   revs : List Ev
   wevs : List WEv
   out : Bytes
+  /-- readiness of the transport's `poll_flush`, one entry per call (`true` = not ready); exhausted = ready -/
+  fevs : List Bool := []
   deriving DecidableEq, Repr
 
 inductive Phase where
   | idle
   | writing (rem : Bytes) (f : Bytes) (c : Cls)   -- reply partly written; `f`,`c` = the decoded keep-alive held by the future
+  | flushing (f : Bytes) (c : Cls)                 -- reply written, `flush().await` of `Framed::write` not yet complete
   deriving DecidableEq, Repr
 
 inductive WOut | done | pending (rem : Bytes) | failed
@@ -75,13 +78,26 @@ def pollRead (cfg : Cfg) : Bytes → List Ev → Bytes × List Ev × ROut
 inductive PollRes | ready (i : Item) | pending | stuck
   deriving DecidableEq, Repr
 
+/-- `flush()` polled once -/
+def pollFlush : List Bool → List Bool × Bool
+  | true :: fs => (fs, true)
+  | _ :: fs => (fs, false)
+  | [] => ([], false)
+
+/-- the reply has been handed to the transport completely: flush, then return the keep-alive -/
+def afterWrite (st : St) (f : Bytes) (c : Cls) : St × Phase × PollRes :=
+  match pollFlush st.fevs with
+  | (fs, true) => ({ st with fevs := fs }, .flushing f c, .pending)
+  | (fs, false) => ({ st with fevs := fs }, .idle, .ready (.pkt f c))
+
 /-- one `poll` of the read future -/
 def poll (cfg : Cfg) (st : St) : Phase → St × Phase × PollRes
   | .writing rem f c =>
     match pollWrite st.wevs st.out rem with
-    | (ws, out, .done) => ({ st with wevs := ws, out := out }, .idle, .ready (.pkt f c))
+    | (ws, out, .done) => afterWrite { st with wevs := ws, out := out } f c
     | (ws, out, .pending rem') => ({ st with wevs := ws, out := out }, .writing rem' f c, .pending)
     | (ws, out, .failed) => ({ st with wevs := ws, out := out }, .idle, .ready (.err .io))
+  | .flushing f c => afterWrite st f c
   | .idle =>
     match pollRead cfg st.buf st.revs with
     | (buf, evs, .ready i) => ({ st with buf := buf, revs := evs }, .idle, .ready i)
@@ -89,9 +105,9 @@ def poll (cfg : Cfg) (st : St) : Phase → St × Phase × PollRes
     | (buf, evs, .stuck) => ({ st with buf := buf, revs := evs }, .idle, .stuck)
     | (buf, evs, .keepalive f c) =>
       match pollWrite st.wevs st.out (pong cfg.mode) with
-      | (ws, out, .done) => ({ buf := buf, revs := evs, wevs := ws, out := out }, .idle, .ready (.pkt f c))
-      | (ws, out, .pending rem') => ({ buf := buf, revs := evs, wevs := ws, out := out }, .writing rem' f c, .pending)
-      | (ws, out, .failed) => ({ buf := buf, revs := evs, wevs := ws, out := out }, .idle, .ready (.err .io))
+      | (ws, out, .done) => afterWrite { st with buf := buf, revs := evs, wevs := ws, out := out } f c
+      | (ws, out, .pending rem') => ({ st with buf := buf, revs := evs, wevs := ws, out := out }, .writing rem' f c, .pending)
+      | (ws, out, .failed) => ({ st with buf := buf, revs := evs, wevs := ws, out := out }, .idle, .ready (.err .io))
 
 /-- is the session over after this result? (as the harness stops calling `read`) -/
 def Item.final : Item → Bool
